@@ -715,11 +715,11 @@ func c04Scenarios(tier string) []*world.Scenario {
 
 func init() {
 	register(&Check{ID: "C02", Level: "model_checking",
-		Rule:      "every forwarded single-fragment command of the supported table x allowed argument counts x 3 letter-case variants x rotating argument contents {plain, empty, CRLF, '$-1', binary, 72-byte, embedded RESP, '-1'} (thorough: 1.1k/4.2k/70k/2MiB arguments) x 18 reply shapes (status, errors, integers incl. extremes, null/empty/binary/CRLF bulks, null/empty/nested arrays, 5 kB bulk), with and without password+replica handshakes, as closed-loop batches; for GET/SET/EVAL/HMSET every single cut (thorough: every pair of cuts) of the request and of the reply, each with <= 1 scheduling deviation; slow reader under every EAGAIN/short-write answer within the bound; oracle: node bytes = client bytes modulo case of the command name, client bytes = node reply bytes; non-trivial = scenario with a cut, a deviation or a non-default write answer; distinct = observable outcomes",
+		Rule:      "every forwarded single-fragment command of the supported table x allowed argument counts x 3 letter-case variants x rotating argument contents {plain, empty, CRLF, '$-1', binary, 72-byte, embedded RESP, '-1'} (thorough: 1.1k/4.2k/70k/2MiB arguments) x 18 reply shapes (status, errors, integers incl. extremes, null/empty/binary/CRLF bulks, null/empty/nested arrays, 5 kB bulk), with and without password+replica handshakes, as closed-loop batches; for GET/SET/EVAL/HMSET every single cut (thorough: every pair of cuts) of the request and of the reply, each with <= 1 scheduling deviation; slow reader (one reply; a pipeline of replies crossing the 64-byte ring/list boundary of the outbound buffer; three replies released by one vectored write) under every EAGAIN/short-write answer within the bound; handshake replies and first data replies arriving in one read; oracle: node bytes = client bytes modulo case of the command name, client bytes = node reply bytes; non-trivial = scenario with a cut, a deviation or a non-default write answer; distinct = observable outcomes",
 		Scenarios: c02Scenarios, BudgetQuick: 100, BudgetThorough: 1500,
 		Assumptions: []string{"multi-megabyte arguments are represented by sizes crossing every buffer threshold in the code (64 B caps, 1 KiB ring default, 4 KiB growth step, 64 KiB read buffer) and one 2 MiB value in the thorough tier"}})
 	register(&Check{ID: "C04", Level: "model_checking",
-		Rule:      "(i) ALL 16384 slots (one brace-free and one hash-tagged key each) as a read and as a write through 2-3 slot layouts (thirds, 64 alternating ranges, single-slot ranges at 0/1/5461/5462/16383), replica reads enabled and disabled; (ii) EVERY forwarded command of the supported table x {0,1,2 replicas} x replica reads on/off x slot positions, under EVERY outcome of every random choice (unbounded); (iii) AUTH/READONLY handshake on every new backend connection with the handshake replies under ALL 2^9 segmentations; oracle: the receiving node belongs to the replica set owning the specification slot of the key (master for writes, cursor scans, scripts, and always when replica reads are disabled), handshake order AUTH, READONLY, then requests, and no handshake reply surfaces at a client; distinct = observable outcomes",
+		Rule:      "(i) ALL 16384 slots (one brace-free and one hash-tagged key each) as a read and as a write through 2-3 slot layouts (thirds, 64 alternating ranges, single-slot ranges at 0/1/5461/5462/16383), replica reads enabled and disabled; (ii) EVERY forwarded command of the supported table x {0,1,2 replicas} x replica reads on/off x slot positions, under EVERY outcome of every random choice (unbounded); (iii) AUTH/READONLY handshake on every new backend connection with the handshake replies under ALL 2^9 segmentations, and coalesced with the replies to the first requests into one read (fixed and as an explorer choice); (iv) a master with open connections demoted to replica by a topology update (role flip), reads sent after the proxy adopted it; oracle: the receiving node belongs to the replica set owning the specification slot of the key (master for writes, cursor scans, scripts, and always when replica reads are disabled), handshake order AUTH, READONLY, then requests, and no handshake reply surfaces at a client; distinct = observable outcomes",
 		Scenarios: c04Scenarios, BudgetQuick: 100, BudgetThorough: 1500,
 		Assumptions: []string{"write/read classification is hand-written from the Redis command reference (spec.go)", "corpus keys are brace-free or carry well-formed non-empty hash tags, on which the spec slot function and the proxy's agree (C05 decides the slot function itself)"}})
 }
